@@ -15,7 +15,7 @@ Lemma only_done_now now s s' :
      forall u i, In (u, i) (flows s') -> ~ In a (i_actions i)).
 Proof.
   intros Hd Hr. destruct (cleanup_only_done cfg_now now s s' Hd Hr) as [H1 H2]. split; [|exact H2].
-  intros u i Hi Hn. exact (removable_meaning _ now i (H1 u i Hi Hn)).
+  intros u i Hi Hn. exact (removable_meaning _ _ _ now i (H1 u i Hi Hn)).
 Qed.
 
 Lemma candidates_now now s s' (ix : index) :
